@@ -121,8 +121,31 @@ let () =
             theorems (upload_abort_restores, copy_fault_restores) are the proof side *)
          let wlimit = (match drv with L l -> (match List.rev l with last :: _ -> (try int_ last with _ -> 0) | [] -> 0) | _ -> 0) in
          if wlimit > 0 then bump (if int_of_n o.status >= 400 then "write_fault_failed" else "write_fault_not_hit");
-         if wlimit < 0 then bump (if int_of_n o.status >= 400 then "raced_failed" else "raced_succeeded");
+         if wlimit = -1 then bump (if int_of_n o.status >= 400 then "raced_failed" else "raced_succeeded");
+         (* rename-fault cases (rfault stage: the source's directory is immutable, so os.Rename is
+            refused after Move's checks and after RemoveAll(dst)): the step-level model
+            MoveSteps.move_steps with its fault is compared with the observed tree; the narrow
+            selector of the known finding is (refused rename, existing destination, tree = model's) *)
+         let rfault_kf = ref "-" in
+         let rfault () =
+           let plain () = agrees_c02 root sb r o aft, spec_c02 sb o aft in
+           match r.h_dest with
+           | DestPath dst when string_of_chars r.meth = "MOVE" ->
+             (match copy_move_checks root sb r.rpath dst (string_of_chars r.h_overwrite <> "F") with
+              | GOk (((ss, _), ds), _) ->
+                let sp = List.append root ss and dp = List.append root ds in
+                let failed = int_of_n o.status >= 400 in
+                bump (if failed then "rename_fault_failed" else "rename_fault_not_hit");
+                if not failed then plain ()
+                else begin
+                  let ag = move_fault_agrees sb sp dp aft in
+                  if ag && move_fault_loses sb dp then (bump "rename_fault_lost_destination"; rfault_kf := "move-rename-fault");
+                  ag, spec_c02 sb o aft
+                end
+              | GErr _ -> bump "rename_fault_refused_by_checks"; plain ())
+           | _ -> plain () in
          let agree, spec = match mode with
+           | "c02" when wlimit = -2 -> rfault ()
            | "c02" when wlimit <> 0 -> spec_c02 sb o aft, spec_c02 sb o aft
            | "c02" -> agrees_c02 root sb r o aft, spec_c02 sb o aft
            | "c03" -> agrees_c03 root sb r o aft, spec_c03 root sb r o aft
@@ -135,7 +158,7 @@ let () =
               | Some (tb, ta) -> bump "spec_with_reported_tags"; spec_ok_reported tb ta root sb r o aft
               | None -> spec_ok root sb r o aft) in
          let (sb', resp) = serve root sb r in
-         verdict ~agree ~spec ~kf:"-" ~detail:(Printf.sprintf "model: %s after=%s" (show_resp resp) (show_node sb')))
+         verdict ~agree ~spec ~kf:!rfault_kf ~detail:(Printf.sprintf "model: %s after=%s" (show_resp resp) (show_node sb')))
     | L [A "usteps"; L (A "dir" :: dir); tmp; name; L (A "chunks" :: chunks); fails; status] ::
       L [A "tree"; tree] :: L (A "seen" :: seen) :: L [A "after"; after] :: _ ->
       let sb = node_of tree and aft = node_of after in
